@@ -23,8 +23,9 @@ pub async fn get_request_addr(stream: &mut TcpStream) -> anyhow::Result<Address>
     tokio::time::timeout(Duration::from_secs(30), async {
         let next = recognize(stream).await?;
         match next {
-            Proxy::Http(address) => Ok(address),
+            Proxy::Http(address) => representable(address),
             Proxy::Https(address) => {
+                let address = representable(address)?;
                 let _ = stream.read(&mut [0; 1024]).await?;
                 stream.write_all(b"HTTP/1.1 200 Connection established\r\n\r\n").await?;
                 Ok(address)
@@ -40,6 +41,16 @@ pub async fn get_request_addr(stream: &mut TcpStream) -> anyhow::Result<Address>
         }
     })
     .await?
+}
+
+/// Every wire format carries a host name behind a one-byte length: refuse what cannot be represented.
+fn representable(address: Address) -> anyhow::Result<Address> {
+    if let Address::Domain(host, _) = &address {
+        if host.is_empty() || host.len() > u8::MAX as usize {
+            bail!("unsupported host name of {} bytes", host.len());
+        }
+    }
+    Ok(address)
 }
 
 async fn recognize(stream: &mut TcpStream) -> Result<Proxy, anyhow::Error> {
